@@ -26,7 +26,7 @@ EXPLANATION = (
     " Round 4: the coords shift of pad_trim_left_right / trim is made under exactly the conditions under which the shards are replaced; (11) LOOPFRESH - per-shard state (content_delta's row memo, new_cviews, the running column) is defined anew for every shard."
     " Round-4 triage: (12) content_delta pairs cviews by screen column - the unchanged marker is produced from column lists computed with the shard tails, and both tails are carried forward for every shard consumed or stepped over; each column list pairs a shard's cviews with the tail of the same canvas. Round 5: (13) the two content-iterator sites of shard_body() pass canv.content() the same arguments."
     ' Round 6: (12c) the shard comparison of shards_delta is reached only under a test ordering the two row counters (row alignment); (14) ALIAS: coords / shortcuts are never shared with the wrapped canvas.'
-    ' Round 7: (15) the unchanged test of content_delta compares the canvas and all five leading cview fields; (16) SIB: cview_trim_top / cview_trim_left are mirror images under the axis swap (offset + trim, extent - trim); (17) POSBOUND over canvas.py: the cursor kept after a trim is tested half-open against cols() / rows().'
+    ' Round 7: (15) the unchanged test of content_delta compares the canvas and all five leading cview fields; (16) SIB: cview_trim_top / cview_trim_left are mirror images under the axis swap (offset + trim, extent - trim); (17) POSBOUND over canvas.py: the cursor kept after a trim is tested half-open against cols() / rows(); (18) PASS: overlay() tests the covered canvas\' cursor against the covered rectangle and drops it before the overlaid canvas\' coordinates are merged (fix d4fb084).'
 )
 NOT_DECIDED = "Cell-for-cell equality with the grid model, the width arithmetic of cutting wide characters, content_delta round trip - statements about values of the shard algebra."
 ASSUMPTIONS = []
@@ -446,6 +446,44 @@ def _trim_frame(ctx: Ctx):
     return c11.rule_trim_frame(ctx, "C02.10")
 
 
+def rule_overlay_covers_cursor(ctx: Ctx) -> RuleResult:
+    """'cursor and pop-up coordinates move with the content they belong to': overlay() replaces the cells of a
+    rectangle of this canvas by the other canvas' cells, so a cursor that belonged to a replaced cell goes with it.
+    Every path to the merge of the other canvas' coordinates (`self.coords.update(...)`) passes a test of this
+    canvas' cursor that names both offset parameters (the covered rectangle), and the true branch of that test
+    deletes the cursor.  Before fix d4fb084 the bottom cursor stayed: an Edit below an Overlay whose top widget has
+    no cursor showed the terminal cursor in the middle of the top widget."""
+    p = ctx.p
+    rr = RuleResult("PASS", "C02.18", "CompositeCanvas.overlay() tests this canvas' cursor against the covered rectangle and drops it before it merges the overlaid canvas' coordinates", floor=1)
+    fi = p.func(f"{CV}.CompositeCanvas.overlay")
+    cfg = cfg_of(fi)
+    if len(fi.params) < 4:
+        raise AnalysisError("CompositeCanvas.overlay: (self, other, left, top) expected")
+    px, py = fi.params[2], fi.params[3]
+    merges = nodes_where(cfg, lambda x: isinstance(x, ast.Call) and isinstance(x.func, ast.Attribute) and x.func.attr == "update" and isinstance(x.func.value, ast.Attribute) and x.func.value.attr == "coords")
+    if not merges:
+        raise AnalysisError("CompositeCanvas.overlay: the merge of the overlaid canvas' coordinates (self.coords.update) was not found")
+
+    def is_drop(n):
+        if isinstance(n.ast, ast.Delete):
+            return any(isinstance(t, ast.Subscript) and isinstance(t.value, ast.Attribute) and t.value.attr == "coords" and isinstance(t.slice, ast.Constant) and t.slice.value == "cursor" for t in n.ast.targets)
+        return any(isinstance(x, ast.Call) and isinstance(x.func, ast.Attribute) and x.func.attr == "pop" and isinstance(x.func.value, ast.Attribute) and x.func.value.attr == "coords" and x.args and isinstance(x.args[0], ast.Constant) and x.args[0].value == "cursor" for e in node_exprs(n) for x in walk_no_nested(e))
+
+    drops = [n for n in cfg.nodes if is_drop(n)]
+    tests = []
+    for t in cfg.nodes:
+        if t.kind != "test":
+            continue
+        names = {x.id for x in ast.walk(t.ast) if isinstance(x, ast.Name)}
+        if {px, py} <= names and any(d not in ExcEngine._reach_without_edge(cfg, t, "T") for d in drops):
+            tests.append(t)
+    ok = bool(tests) and all(cfg.dominated(m, tests) for m in merges)
+    rr.inst("CompositeCanvas.overlay", True, {"merge": norm(merges[0].stmt, 60), "cursor_drops": len(drops), "rectangle_tests": [norm(t.ast, 80) for t in tests], "test_before_every_merge": ok})
+    if not ok:
+        rr.add(finding("PASS", fi, merges[0].stmt, f"overlay() merges the overlaid canvas' coordinates (`{norm(merges[0].stmt, 50)}`) without first testing this canvas' cursor against the covered rectangle ({px}, {py}, width, height) and dropping it: a cursor of the canvas below stays although its cell now shows the other canvas - the terminal cursor is drawn on top of the overlaid content", construct="overlay keeps a covered cursor"))
+    return rr
+
+
 def run(ctx: Ctx):
     p = ctx.p
     return [
@@ -461,6 +499,7 @@ def run(ctx: Ctx):
         rule_delta_fields(ctx),
         rule_trim_mirror(ctx),
         posbound.run_posbound(p, "C02.17", [CV], floor=2),
+        rule_overlay_covers_cursor(ctx),
         alias.run_inplace_own(p, "C02.14", [CV], floor=6, exempt=_OWN_EXEMPT),
         rule_get_or(ctx),
         accum.run_accum(p, "C02.9", "C02", floor=5),
@@ -471,6 +510,9 @@ def run(ctx: Ctx):
 
 _C = "urwid/canvas.py"
 MUTANTS = [
+    Mut("overlay-keeps-covered-cursor", "urwid/canvas.py", "CompositeCanvas.overlay", "            del self.coords[\"cursor\"]\n", "            pass\n", "PASS|canvas.CompositeCanvas.overlay|overlay keeps a covered cursor"),
+    Mut("overlay-covered-cursor-row-only", "urwid/canvas.py", "CompositeCanvas.overlay", "if cursor is not None and left <= cursor[0] < left + width and top <= cursor[1] < top + height:", "if cursor is not None and top <= cursor[1] < top + height:", "PASS|canvas.CompositeCanvas.overlay|overlay keeps a covered cursor"),
+    Mut("twin-overlay-covered-cursor-pop", "urwid/canvas.py", "CompositeCanvas.overlay", "            del self.coords[\"cursor\"]\n", "            self.coords.pop(\"cursor\")\n", twin=True),
     Mut("delta-ignores-attribute-map", "urwid/canvas.py", "shard_cviews_delta", "cv[:5] == other_cv[:5]", "cv[:4] == other_cv[:4]", "PAIR|canvas.shard_cviews_delta|unchanged test ignores a cview field"),
     Mut("trim-top-sets-offset", "urwid/canvas.py", "cview_trim_top", "    return (cv[0], trim + cv[1], cv[2], cv[3] - trim) + cv[4:]", "    return (cv[0], trim, cv[2], cv[3] - trim) + cv[4:]", "SIB|canvas.cview_trim_top|cview trims are not mirror images"),
     Mut("twin-trim-top-operands-swapped", "urwid/canvas.py", "cview_trim_top", "    return (cv[0], trim + cv[1], cv[2], cv[3] - trim) + cv[4:]", "    return (cv[0], cv[1] + trim, cv[2], cv[3] - trim) + cv[4:]", twin=True),
